@@ -1,4 +1,5 @@
 """C01 — generated random fields reproduce the model covariance (proof of the algebraic skeleton; ensembles as search)."""
+import os
 import warnings
 import numpy as np
 import kernels
@@ -175,6 +176,25 @@ def sampling_bias(gs, model, N, M, seed0):
     return d, d / se
 
 
+def _sampling_one(job):
+    """one configuration of the sampling test (runs in a worker process in the thorough tier); None = dimension not valid"""
+    import gstools as gs
+    name, kw, dim, N, M = job
+    with warnings.catch_warnings():
+        warnings.simplefilter("ignore")
+        try:
+            with warnings.catch_warnings():
+                warnings.simplefilter("error")
+                try:
+                    model = getattr(gs, name)(dim=dim, len_scale=2.0, **kw)
+                except Warning:
+                    return None
+        except Exception:
+            return None
+        d, z = sampling_bias(gs, model, N, M, 7000)
+    return d, z, repr(model)
+
+
 def sampling_cfg_id(name, kw, dim, N):
     par = "".join(f":{k}={v}" for k, v in sorted(kw.items()))
     return f"{name}{par}:d{dim}:N{N}"
@@ -221,32 +241,29 @@ def sampling_search(ctx, deep, only=None, record=None):
         todo = allc
     base = sampling_baseline().get("quick" if ctx.quick else "thorough", {})
     viol, ev = [], 0
-    with warnings.catch_warnings():
-        warnings.simplefilter("ignore")
-        for name, kw, dim, N in todo:
-            try:
-                with warnings.catch_warnings():
-                    warnings.simplefilter("error")
-                    try:
-                        model = getattr(gs, name)(dim=dim, len_scale=2.0, **kw)
-                    except Warning:      # dimension not valid for this class
-                        continue
-            except Exception:
-                continue
-            M = (60 if N <= 64 else 24) if ctx.quick else (200 if N <= 64 else 60)
-            d, z = sampling_bias(gs, model, N, M, 7000)
-            ev += M
-            cfg = sampling_cfg_id(name, kw, dim, N)
-            bad = (np.abs(z) > 6.0) & (np.abs(d) > 0.02)
-            if record is not None:
-                i = int(np.argmax(np.abs(d)))
-                record[cfg] = dict(d=float(d[i]), z=float(z[i]), flagged=bool(bad.any()), diff=d.tolist(), zs=z.tolist())
-            if bad.any():
-                viol.append({"key": sampling_key(cfg, d, base),
-                             "what": f"wave vectors of RandMeth({name}{kw}, dim={dim}, mode_no={N}) are not distributed as the model's spectral density: "
-                                     f"seed-averaged conditional correlation differs from model.correlation by {np.round(d, 3).tolist()} at lags "
-                                     f"{REL_LAGS.tolist()} x len_scale (z = {np.round(z, 1).tolist()}, {M} seeds)",
-                             "case": dict(model=repr(model), mode_no=N, seeds=M, lags_rel=REL_LAGS.tolist(), diff=d.tolist(), z=z.tolist())})
+    jobs = [(name, kw, dim, N, (60 if N <= 64 else 24) if ctx.quick else (200 if N <= 64 else 60)) for name, kw, dim, N in todo]
+    if len(jobs) > 12:
+        import multiprocessing as mp
+        with mp.get_context("fork").Pool(min(14, os.cpu_count() or 2)) as pool:
+            results = pool.map(_sampling_one, jobs, chunksize=1)
+    else:
+        results = [_sampling_one(j) for j in jobs]
+    for (name, kw, dim, N, M), res in zip(jobs, results):
+        if res is None:
+            continue
+        d, z, rep = res
+        ev += M
+        cfg = sampling_cfg_id(name, kw, dim, N)
+        bad = (np.abs(z) > 6.0) & (np.abs(d) > 0.02)
+        if record is not None:
+            i = int(np.argmax(np.abs(d)))
+            record[cfg] = dict(d=float(d[i]), z=float(z[i]), flagged=bool(bad.any()), diff=d.tolist(), zs=z.tolist())
+        if bad.any():
+            viol.append({"key": sampling_key(cfg, d, base),
+                         "what": f"wave vectors of RandMeth({name}{kw}, dim={dim}, mode_no={N}) are not distributed as the model's spectral density: "
+                                 f"seed-averaged conditional correlation differs from model.correlation by {np.round(d, 3).tolist()} at lags "
+                                 f"{REL_LAGS.tolist()} x len_scale (z = {np.round(z, 1).tolist()}, {M} seeds)",
+                         "case": dict(model=rep, mode_no=N, seeds=M, lags_rel=REL_LAGS.tolist(), diff=d.tolist(), z=z.tolist())})
     return ev, viol
 
 
@@ -279,6 +296,60 @@ def fourier_finite_search(ctx):
                                              f"({int((~np.isfinite(sf)).sum())} of {sf.size} spectrum factors are NaN: negative numerical spectrum under the square root)",
                                      "case": dict(model=repr(model), mode_no=mn, period=16.0)})
                         break
+    return ev, viol
+
+
+def history_sampling_search(ctx):
+    """The ensemble statements are about the model an SRF currently carries, however that model was reached: after in-place changes of
+    spectral parameters (dim, len_scale, rescale, optional arguments, anisotropy) the generator's wave vectors / mode weights must be the
+    ones a freshly built SRF with the resulting model and the same seed draws (sampling is deterministic given model and seed), so that
+    the fresh-object ensemble results carry over."""
+    import gstools as gs
+    rng = np.random.RandomState(ctx.seed + 909)
+    viol, ev = [], 0
+    cases = [("Stable", dict(alpha=1.5), [("alpha", 0.8)]), ("Rational", {}, [("dim", None)]), ("Spherical", {}, [("dim", None)]),
+             ("Exponential", {}, [("rescale", 3.0)]), ("Matern", dict(nu=1.5), [("nu", 0.7), ("rescale", 0.5)]),
+             ("Gaussian", {}, [("len_scale", 4.5)]), ("Stable", dict(alpha=1.2), [("rescale", 2.0), ("len_scale", 1.5)]),
+             ("Cubic", {}, [("dim", None), ("len_scale", 3.0)]), ("TPLStable", {}, [("hurst", 0.8)])]
+    with warnings.catch_warnings():
+        warnings.simplefilter("ignore")
+        for gen in ("RandMeth", "Fourier"):
+            for name, kw, changes in cases:
+                d0 = int(rng.randint(1, 4))
+                if gen == "Fourier":
+                    d0 = min(d0, 2)
+                d1 = [d for d in (1, 2, 3) if d != d0 and (gen != "Fourier" or d < 3)][int(rng.randint(0, 1 if gen == "Fourier" else 2))]
+                model = getattr(gs, name)(dim=d0, len_scale=2.0, **kw)
+                gk = dict(mode_no=32) if gen == "RandMeth" else dict(mode_no=[8] * d0, period=[16.0] * d0)
+                srf = gs.SRF(model, generator=gen, seed=11, **gk)
+                srf(rng.rand(d0, 3) * 5)
+                for attr, val in changes:
+                    if attr == "dim":
+                        if gen == "Fourier":
+                            continue            # period / mode_no are per dimension
+                        srf.model.dim = d1
+                    else:
+                        setattr(srf.model, attr, val)
+                dn = int(srf.model.dim)
+                srf(rng.rand(dn, 3) * 5)
+                fkw = {o: getattr(srf.model, o) for o in srf.model.opt_arg}
+                fresh_model = getattr(gs, name)(dim=dn, var=srf.model.var, len_scale=srf.model.len_scale, rescale=srf.model.rescale, **fkw)
+                gk2 = dict(mode_no=32) if gen == "RandMeth" else dict(mode_no=[8] * dn, period=[16.0] * dn)
+                fresh = gs.SRF(fresh_model, generator=gen, seed=11, **gk2)
+                fresh(rng.rand(dn, 3) * 5)
+                ev += 1
+                a, b = srf.generator, fresh.generator
+                if gen == "RandMeth":
+                    same = a._cov_sample.shape == b._cov_sample.shape and np.array_equal(a._cov_sample, b._cov_sample)
+                else:
+                    same = (a._modes.shape == b._modes.shape and np.array_equal(a._modes, b._modes)
+                            and np.array_equal(a._spectrum_factor, b._spectrum_factor, equal_nan=True))
+                if not same:
+                    ch = "+".join(c[0] for c in changes)
+                    viol.append({"key": f"history-sampling:{gen}:{ch}",
+                                 "what": f"after the in-place change(s) {changes} of SRF({name}{kw}, generator={gen}) the generator's wave vectors / weights "
+                                         "differ from those a freshly built SRF with the resulting model and the same seed draws",
+                                 "case": dict(model=name, kw=kw, changes=[list(c) for c in changes], dim0=d0, dim1=dn, generator=gen)})
     return ev, viol
 
 
@@ -380,12 +451,14 @@ def search(ctx, deep=False):
             ev += 800
     ev_s, v_s = sampling_search(ctx, deep)
     ev_f, v_f = fourier_finite_search(ctx)
-    ev += ev_s + ev_f
-    viol = v_f + v_s + viol
+    ev_h, v_h = history_sampling_search(ctx)
+    ev += ev_s + ev_f + ev_h
+    viol = v_h + v_f + v_s + viol
     return {"evaluations": ev, "violations": viol[:40],
             "summary": f"spectral-sampling test ({ev_s} generators: seed-averaged conditional covariance (var/N) sum cos<k_j,h> against model.correlation, "
                        "6 sigma and 2 % of the variance; 17 classes x dim 1-3 x mode_no 64/1000 in thorough, a rotating subset in quick); "
                        f"{ev_f} Fourier fields of numerical-spectrum models checked for finiteness; "
+                       f"{ev_h} generators reached through in-place model changes compared with freshly built ones (wave vectors / weights bit-identical); "
                        f"seed ensembles ({M} seeds per configuration, {len(configs)} configurations incl. anisotropic/rotated models, nugget, one MCMC-sampled model "
                        "in quick / all in thorough): mean, pointwise variance and lag covariances against model.covariance at a 6-sigma threshold; "
                        "Fourier ensembles against the spectral Riemann sum and that sum against the model (5 % of var)"}
